@@ -1,10 +1,40 @@
-(* Properties_C03.v — placeholder until SdlProofs.v lands; see DESIGN.md 4 C03. *)
-From PD Require Import Base SdlModel SdlObs.
-Open Scope list_scope.
+(* Properties_C03.v — C03: each epoch exactly once, in DataLoader order.
+   Model: SdlModel.v (the multi-process iterator under an explicit arrival SCHEDULE); proofs: SdlMapProofs.v. *)
+From PD Require Import Base SdlModel SdlObs SdlMapProofs.
+Open Scope list_scope. Open Scope nat_scope.
+
+(* map-style datasets, PROVED for every configuration (any num_workers > 0, prefetch_factor > 0, any batch sampler output,
+   any snapshot interval) and EVERY arrival schedule: the consumer-visible outcomes of one epoch are exactly the sampler's
+   batches, each once, in sampler order (an error outcome standing for a batch that contains a failing index), followed
+   by StopIteration; no internal assertion fires.  Hypothesis: snapshot interval <= 1 or no failing index (the complement
+   is known finding D9, see Properties_C10.v). *)
+Theorem C03_map_epoch_exact : forall c, c_kind c = KMap -> 0 < c_W c -> 0 < c_P c -> c_I c <= 1 \/ c_bad c = [] ->
+  forall sched, outcomes c (S (LL c)) (sdl_fresh c) sched = map (want c) (seq 0 (LL c)) ++ [OStop].
+Proof. exact map_epoch_exact. Qed.
+Print Assumptions C03_map_epoch_exact.
+
+(* the same from ANY point of an epoch: the rest is exactly the remaining batches *)
+Theorem C03_map_rest_exact : forall c, c_kind c = KMap -> 0 < c_W c -> 0 < c_P c -> c_bad c = [] ->
+  forall off c0 k s sched, Good c off c0 k s ->
+  outcomes c (S (LL c - (off + k))) s sched = map (want c) (seq (off + k) (LL c - (off + k))) ++ [OStop].
+Proof. exact good_continuation. Qed.
+Print Assumptions C03_map_rest_exact.
+
+(* iterable datasets: FULL statement (target, not yet proved — checked by lockstep correspondence and against
+   torch.utils.data.DataLoader on every run): every schedule yields the column-major interleave of the per-worker batch lists *)
+Definition C03_iter_statement : Prop :=
+  forall c, c_kind c = KIter -> 0 < c_W c -> 0 < c_P c -> length (c_shards c) = c_W c -> c_bad c = [] ->
+  forall sched, outcomes c (S (length (reference c))) (sdl_fresh c) sched = map OBatch (reference c) ++ [OStop].
+
 Example C03_reference_example :
   reference {| c_kind := KIter; c_W := 3; c_P := 2; c_I := 1; c_bs := 2; c_drop := false;
      c_shards := [[0;1;2;3;4];[100];[200;201;202]]; c_batches := []; c_bad := []; c_stateful := true; c_rewind := false |}
   = [[0; 1]; [100]; [200; 201]; [2; 3]; [202]; [4]].
 Proof. vm_compute. reflexivity. Qed.
-Theorem C03_placeholder : True. Proof. exact I. Qed.
-Print Assumptions C03_placeholder.
+
+(* the iterable statement on a concrete instance under a non-trivial schedule (a test, not the proof) *)
+Example C03_iter_instance :
+  let c := {| c_kind := KIter; c_W := 3; c_P := 2; c_I := 1; c_bs := 2; c_drop := false;
+              c_shards := [[0;1;2;3;4];[100];[200;201;202]]; c_batches := []; c_bad := []; c_stateful := true; c_rewind := false |} in
+  outcomes c 7 (sdl_fresh c) [2;0;1;1;0;2;1;0;0;1] = map OBatch (reference c) ++ [OStop].
+Proof. vm_compute. reflexivity. Qed.
